@@ -42,6 +42,8 @@ Tree17(p) == Mk3("a", X(p[1]), "b", Mk2("c", X(p[2]), "d", L(<<X(p[3]), I("7")>>
              %% Mk2("n", L(<<Single("f", Mk2("g", X(p[6]), "h", I("1")))>>), "q", L(<<L(<<Mk2("c", X(p[7]), "d", I("1"))>>)>>))
              %% Single("$Up", Mk2("r", X(p[8]), "s", I("1")))     \* a key that starts with "$" without being a directive
 Uppers17 == {Null, Single("a", I("2")), Single("b", Single("c", I("3"))), Single("l", L(<<I("9")>>)),
+             (* an upper layer may itself bring a marker into a list that exists below *)
+             Single("l", L(<<Req>>)), Single("b", Single("d", L(<<I("5"), Req>>))),
              Single("b", Single("d", L(<<I("5")>>))), Single("z", Req), Mk2("a", I("2"), "b", Mk2("c", I("3"), "d", L(<<I("5")>>)))}
 CasesC17(lazy) ==
   {[layers |-> IF IsNull(u) THEN <<Tree17(p)>> ELSE <<Tree17(p), u>>] : p \in [1..8 -> BOOLEAN], u \in Uppers17}
